@@ -194,6 +194,9 @@ let run_ae2e (v : variant) (toks : string list) : string =
 let run_restore ?(halfopen_unclaimed = false) (real_is_pppoe : bool) (v : variant) (toks : string list) : string =
   (* tuples whose ipoe session was checkpointed half-established (H op) and not restarted since *)
   let half = ref [] in
+  (* variant without the HA-promotion repair: tuples whose ipoe session was installed by an A op; its MixedAccess flag is
+     false and is checkpointed as false, so no later restart claims for it either *)
+  let ha_unclaimed = ref [] in
   let show1 w t =
     let k = key_of_tok e2e_tuples.(t) in
     let ((ni, np), own) = e2e_snapshot w k in
@@ -210,14 +213,21 @@ let run_restore ?(halfopen_unclaimed = false) (real_is_pppoe : bool) (v : varian
       let k = key_of_tok e2e_tuples.(t) in
       let fresh_ipoe = (fst (fst (e2e_snapshot w k)) = O) in
       let w' = match op.[0] with
-        | 'N' -> if fresh_ipoe then half := List.filter (fun x -> x <> k) !half;
+        | 'N' -> if fresh_ipoe then (half := List.filter (fun x -> x <> k) !half; ha_unclaimed := List.filter (fun x -> x <> k) !ha_unclaimed);
           e2e_step v w (if real_is_pppoe then EPadr k else EDiscover k)
         | 'H' -> if fresh_ipoe then half := k :: !half; e2e_step v w (EDiscover k)
+        | 'A' -> (* HA promotion installs a synced session: a creation path like the others *)
+          if fresh_ipoe && not v.v_claim_all then ha_unclaimed := k :: !ha_unclaimed;
+          e2e_step v w (ERequest k)
         | 'X' -> e2e_step v w (if real_is_pppoe then EDiscover k else EPadr k)
         | 'B' ->
           let skip = !half in
           half := [];
-          if halfopen_unclaimed then e2e_restart_skipping v skip w else e2e_restart w
+          let live k = (fst (fst (e2e_snapshot w k)) <> O) in
+          ha_unclaimed := List.filter live !ha_unclaimed;
+          if halfopen_unclaimed then e2e_restart_skipping v skip w
+          else if !ha_unclaimed <> [] then e2e_restart_skipping v !ha_unclaimed w
+          else e2e_restart w
         | _ -> failwith ("bad restore op " ^ op) in
       go w' rest (show w' t :: acc) in
   match go world0 toks [] with
@@ -357,6 +367,7 @@ let () =
     | "superseded_survives" -> { v_keyhit = true; v_claim_all = true; v_evict_pp = false }
     | "unclaimed_and_superseded" -> { v_keyhit = true; v_claim_all = false; v_evict_pp = false }
     | "pre_94649ad" -> { v_keyhit = false; v_claim_all = false; v_evict_pp = false }
+    | "ha_install_unclaimed" -> { v_keyhit = true; v_claim_all = false; v_evict_pp = true }
     | _ -> { v_keyhit = true; v_claim_all = true; v_evict_pp = true } in
   List.iteri (fun idx line ->
       let out =
